@@ -559,10 +559,14 @@ class GroupKeyEnvelope:
                 peer_public_key=self.l2_key,
             )
         else:
+            # MS-GKDI 2.2.4 allows the server to omit the L2 key when the L2
+            # index is 31 as it can be derived from the L1 key.
+            l2_key = self.l2_key or compute_l2_key(hash_algo, self.l1, self.l2, self)
+
             key_info = os.urandom(32)
             kek = kdf(
                 hash_algo,
-                self.l2_key,
+                l2_key,
                 KDS_SERVICE_LABEL,
                 key_info,
                 32,
